@@ -717,6 +717,77 @@ class EnvSaveLoad(Bounded):
         return True
 
 
+class ToolchainReplay(Bounded):
+    """A toolchain file that chooses tools by name (`compiler`, `linker`, `runner`, `which` with several candidates)
+    is loaded at configure time under one PATH and replayed after `Environment.load` under another ambient PATH and
+    working directory (what `regenerate`, `env` and `run` do): the chosen tools are the ones chosen at configure
+    time."""
+    target = 'bfg9000/builtins/toolchain.py::which'
+    properties = ('C09',)
+    reason = 'file system lookups and two processes\' worth of ambient state: runtime contract on the real functions'
+    LINES = {
+        'compiler': ("compiler(['tool-a', 'tool-b'], 'c')", 'CC'),
+        'linker': ("linker(['tool-a', 'tool-b'])", 'LD'),
+        'runner': ("runner(['tool-a', 'tool-b'], 'java')", 'JAVACMD'),
+        'which': ("environ['CHOSEN'] = which(['tool-a', 'tool-b'])", 'CHOSEN'),
+        'path-set-by-the-file': ("environ['PATH'] = %(binb)r\ncompiler(['tool-a', 'tool-b'], 'c')", 'CC'),
+    }
+    AMBIENT = ['only-second-directory', 'reversed', 'empty']
+
+    def native_inputs(self, case, alphabet, maxlen, rng, extra=0):
+        for k in self.LINES:
+            for amb in self.AMBIENT:
+                yield {'builtin': k, 'later_path': amb}
+
+    def native_check(self, case, raw):
+        import os, shutil, tempfile
+        from bfg9000 import build
+        from bfg9000.build_inputs import Regenerating
+        from bfg9000.path import Path, Root
+        top = tempfile.mkdtemp(prefix='pyvc_tc_')
+        old_path, old_cwd = os.environ.get('PATH'), os.getcwd()
+        try:
+            bina, binb, bld = (os.path.join(top, i) for i in ('bina', 'binb', 'build'))
+            for d, tool in ((bina, 'tool-a'), (binb, 'tool-b')):
+                os.makedirs(d)
+                with open(os.path.join(d, tool), 'w') as f:
+                    f.write('#!/bin/sh\n')
+                os.chmod(os.path.join(d, tool), 0o755)
+            os.makedirs(bld)
+            line, var = self.LINES[raw['builtin']]
+            tc = os.path.join(top, 'toolchain.bfg')
+            with open(tc, 'w') as f:
+                f.write(line % {'binb': binb} + '\n')
+            os.environ['PATH'] = bina + os.pathsep + binb
+            env = E.Environment(Path('/bfgdir/', Root.absolute), 'make', '4.3', Path(top + '/', Root.absolute), Path(bld + '/', Root.absolute))
+            build.load_toolchain(env, Path(tc, Root.absolute))
+            env.finalize({}, (True, False), True, [])
+            env.save(bld)
+            first_choice = env.variables.get(var)
+            expected = 'tool-b' if raw['builtin'] == 'path-set-by-the-file' else 'tool-a'
+            if first_choice != expected:
+                return self.fail(case, raw, 'configure_chooses_the_first_candidate_on_the_path', got=first_choice, expected=expected)
+            os.environ['PATH'] = {'only-second-directory': binb, 'reversed': binb + os.pathsep + bina, 'empty': ''}[raw['later_path']]
+            os.chdir('/')
+            try:
+                env2 = E.Environment.load(bld)
+                build.load_toolchain(env2, env2.toolchain.path, Regenerating.true)
+            except Exception as e:      # noqa
+                return self.fail(case, raw, 'later_invocation_restores_the_configured_choice', configured=first_choice,
+                                 later='raised ' + repr(e)[:200], ambient_path=os.environ['PATH'])
+            if env2.variables.get(var) != first_choice:
+                return self.fail(case, raw, 'later_invocation_restores_the_configured_choice', configured=first_choice,
+                                 later=env2.variables.get(var), ambient_path=os.environ['PATH'])
+            return True
+        finally:
+            if old_path is None:
+                os.environ.pop('PATH', None)
+            else:
+                os.environ['PATH'] = old_path
+            os.chdir(old_cwd)
+            shutil.rmtree(top, ignore_errors=True)
+
+
 def registry():
     return [SetItem(), DelItem(), Clear(), Pop(), PopItem(), SetDefault(), Update(), IOr(), Reset(), Init(), FromJson(),
-            LazyChanges(), LoadToolchain(), EnvVarDictOps(), EnvSaveLoad()]
+            LazyChanges(), LoadToolchain(), EnvVarDictOps(), EnvSaveLoad(), ToolchainReplay()]
